@@ -46,6 +46,7 @@
 #include <arpa/inet.h>
 #include <errno.h>
 #include <netinet/in.h>
+#include <poll.h>
 #include <stdio.h>
 #include <stdlib.h>
 #include <string.h>
@@ -73,7 +74,8 @@ static const char* g_scenario = "?";
 class Gate {
  public:
   Gate() : n_(0) {}
-  void open() { { std::lock_guard<std::mutex> l(m_); ++n_; } cv_.notify_all(); }
+  // notify under the lock: the waiter may destroy the gate as soon as it owns the mutex again
+  void open() { std::lock_guard<std::mutex> l(m_); ++n_; cv_.notify_all(); }
   void wait(const char* where, int need = 1) {
     std::unique_lock<std::mutex> l(m_);
     if (!cv_.wait_for(l, std::chrono::seconds(60), [this, need] { return n_ >= need; })) {
@@ -389,13 +391,28 @@ struct Listener {
     if (::bind(fd, reinterpret_cast<struct sockaddr*>(&sa), sizeof sa) != 0 || ::listen(fd, 128) != 0) { perror("listen"); _exit(2); }
     port = boundPort(fd);
     th = std::thread([this] {
-      std::vector<int> open;
+      // accepts, greets, echoes nothing; closes a connection when the client half-closes it, and
+      // hangs up on the oldest one when a newer one arrives
+      std::vector<struct pollfd> fds(1);
+      fds[0].fd = fd; fds[0].events = POLLIN;
+      char buf[4096];
       for (;;) {
-        int c = ::accept4(fd, NULL, NULL, SOCK_CLOEXEC);
-        if (c < 0) { if (errno == EINTR) continue; return; }
-        (void)::send(c, "hello", 5, MSG_NOSIGNAL);
-        open.push_back(c);
-        if (open.size() > 1) { ::close(open[0]); open.erase(open.begin()); }   // the server side hangs up on older ones
+        if (::poll(&fds[0], fds.size(), -1) < 0) { if (errno == EINTR) continue; return; }
+        for (size_t i = fds.size(); i-- > 1;) {
+          if (fds[i].revents) {
+            ssize_t n = ::recv(fds[i].fd, buf, sizeof buf, MSG_DONTWAIT);
+            if (n == 0 || (n < 0 && errno != EAGAIN && errno != EINTR)) { ::close(fds[i].fd); fds.erase(fds.begin() + i); }
+          }
+        }
+        if (fds[0].revents & POLLIN) {
+          int c = ::accept4(fd, NULL, NULL, SOCK_CLOEXEC);
+          if (c >= 0) {
+            (void)::send(c, "hello", 5, MSG_NOSIGNAL);
+            struct pollfd p; p.fd = c; p.events = POLLIN; p.revents = 0;
+            fds.push_back(p);
+            if (fds.size() > 3) { ::close(fds[1].fd); fds.erase(fds.begin() + 1); }
+          }
+        }
       }
     });
     th.detach();
@@ -441,7 +458,9 @@ static void clientScenario(ClientOp op, int calls) {
     cli->disconnect();
     cli->stop();
     for (int j = 0; j < 4000; ++j) {       // not a verdict: just lets the connection go down before the next round
-      if (!cli->connection()) break;
+      TcpConnectionPtr c = cli->connection();
+      if (!c) break;
+      if (j == 200) c->forceClose();
       usleep(500);
     }
     Gate drained;
